@@ -309,13 +309,13 @@ func TestVerif_C15(t *testing.T) {
 		vfStats.Subchecks["names"] = fmt.Sprintf("all %d registered names and aliases", len(c15Names))
 	}
 	if vfOnlySub("dec") {
-		vfRun(t, vfSub[c15Case]{Prop: "C15", Name: "dec", Checks: vfN(200000, 8000000), Gen: c15Gen, Check: c15Check})
+		vfRun(t, vfSub[c15Case]{Prop: "C15", Name: "dec", Checks: vfN(200000, 16000000), Gen: c15Gen, Check: c15Check})
 	}
 	if t.Failed() {
 		return
 	}
 	if vfOnlySub("extended") {
-		vfRun(t, vfSub[c15Ext]{Prop: "C15", Name: "extended", Checks: vfN(20000, 1000000), Gen: c15ExtGen, Check: c15ExtCheck})
+		vfRun(t, vfSub[c15Ext]{Prop: "C15", Name: "extended", Checks: vfN(20000, 3000000), Gen: c15ExtGen, Check: c15ExtCheck})
 	}
 	if t.Failed() {
 		return
